@@ -1328,6 +1328,8 @@ class Intra:
             # ClassName.m(x, ...)   /  module.f(...)
             if isinstance(base, ast.Name) and base.id not in st.env:
                 tgt = self.prog.lookup_name(self.mod, base.id)
+                if tgt is None and base.id not in self.fi.allparams and base.id[:1].isupper():
+                    tgt = self.prog.class_named(base.id)     # a class of the package referred to by its unique name
                 if isinstance(tgt, ClassInfo):
                     cands = self.prog.candidates(tgt, m, "class")
                     if cands:
